@@ -18,6 +18,7 @@ EnumE     == Enum("E", <<EnumV("E_UNSPECIFIED", 0, ""), EnumV("E_A", 1, "a"), En
 EnumPlain == Enum("P", <<EnumV("P_UNSPECIFIED", 0, ""), EnumV("P_A", 1, "")>>)
 In(P)     == Msg("In", FN(P, "In"), <<F("id", "id", 1, "string", "one")>>)
 Out(P)    == Msg("Out", FN(P, "Out"), <<F("ok", "ok", 1, "bool", "one")>>)
+Req(f)    == [f EXCEPT !.rules = [f.rules EXCEPT !.required = TRUE]]
 Good(P)   == Msg("Good", FN(P, "Good"), <<Ann(F("s", "s", 1, "string", "opt"), "nullable", TRUE)>>)
 
 PostIn(P, in) == Method("Do", in, FN(P, "Out"), TRUE, Parts(TRUE, <<Lit("do")>>, FALSE), "POST")
@@ -138,7 +139,7 @@ C12MethodCase(P, r, sur) ==
 (* that breaks none of the rules is accepted by all five plugins").        *)
 (***************************************************************************)
 Twins == {"T_unwrap_list", "T_unwrap_map", "T_unwrap_mapvalue", "T_nullable", "T_empty", "T_ts", "T_bytes", "T_flatten",
-          "T_flatten_prefix", "T_oneof", "T_oneof_flat", "T_enum_custom", "T_enum_number", "T_int64", "T_get_query", "T_plain"}
+          "T_flatten_prefix", "T_flatten_nested_twice", "T_oneof", "T_oneof_flat", "T_enum_custom", "T_enum_number", "T_int64", "T_get_query", "T_plain"}
 TwinMsgs(P, t) ==
   LET c == FN(P, "Child") c2 == FN(P, "Child2") IN
   CASE t = "T_unwrap_list" -> <<Msg("W", FN(P, "W"), <<Ann(F("items", "items", 1, "string", "rep"), "unwrap", TRUE)>>)>>
@@ -155,6 +156,12 @@ TwinMsgs(P, t) ==
     [] t = "T_flatten"     -> <<Msg("W", FN(P, "W"), <<F("k", "k", 1, "string", "one"), Ann(FRef("a", "a", 2, "message", "one", c), "flatten", TRUE)>>)>>
     [] t = "T_flatten_prefix" -> <<Msg("W", FN(P, "W"), <<F("x", "x", 1, "string", "one"),
                                      Ann(Ann(FRef("a", "a", 2, "message", "one", c), "flatten", TRUE), "prefix", "a_")>>)>>
+    \* a flattened child that itself flattens the same message type twice (billing / shipping address)
+    [] t = "T_flatten_nested_twice" ->
+         <<Msg("Parties", FN(P, "Parties"), <<F("ref", "ref", 1, "string", "one"),
+                                             Ann(Ann(FRef("billing", "billing", 2, "message", "one", c), "flatten", TRUE), "prefix", "billing_"),
+                                             Ann(Ann(FRef("shipping", "shipping", 3, "message", "one", c), "flatten", TRUE), "prefix", "shipping_")>>),
+           Msg("W", FN(P, "W"), <<F("k", "k", 1, "string", "one"), Ann(FRef("a", "a", 2, "message", "one", FN(P, "Parties")), "flatten", TRUE)>>)>>
     [] t = "T_oneof"       -> <<MsgO("W", FN(P, "W"), <<F("k", "k", 1, "string", "one"), InOneof(FRef("a", "a", 2, "message", "one", c), "o"),
                                      InOneof(Ann(FRef("b", "b", 3, "message", "one", c2), "oneofValue", "bee"), "o")>>, <<Oneof("o", TRUE, "type", FALSE)>>)>>
     [] t = "T_oneof_flat"  -> <<MsgO("W", FN(P, "W"), <<F("k", "k", 1, "string", "one"), InOneof(FRef("a", "a", 2, "message", "one", c), "o"),
@@ -375,7 +382,7 @@ C13MethodCase(P, t) ==
 
 \* identifier shapes and service layouts
 C13Shapes == {"names", "keywords", "two_services_same_method", "two_services_headers", "no_services", "cross_file",
-              "nested_annotated", "oneof_members", "acronym_method", "two_service_files"}
+              "nested_annotated", "oneof_members", "acronym_method", "two_service_files", "cross_package_types"}
 C13ShapeCase(P, sh) ==
   LET do(in, out) == Method("Do", in, out, TRUE, Parts(TRUE, <<Lit("do")>>, FALSE), "POST")
       one(msgs, ms) == Schema(<<File(P \o "/svc.proto", Pkg(P), GoPkg(P), TRUE, <<>>, <<Svc(P, ms)>>, <<Out(P), Child(P), Child2(P)>> \o msgs, <<EnumE, EnumPlain>>)>>)
@@ -402,6 +409,16 @@ C13ShapeCase(P, sh) ==
                                                 <<MethodHeaders(Method("Other", FN(P, "In"), FN(P, "Out"), TRUE, Parts(TRUE, <<Lit("o")>>, FALSE), "GET"),
                                                                 <<Header("X-API-Key", "string", "", TRUE), Header("X-Request-ID", "string", "uuid", FALSE)>>)>>), H3)>>,
                           <<Msg("In", FN(P, "In"), <<Ann(F("id", "id", 1, "string", "one"), "query", TRUE)>>), Out(P)>>, <<>>)>>)
+       [] sh = "cross_package_types" ->   \* request / response / field types that live in another Go package
+            Schema(<<File(P \o "x/types.proto", Pkg(P \o "x"), GoPkg(P \o "x"), TRUE, <<>>, <<>>,
+                          <<Msg("Ref", FN(P \o "x", "Ref"), <<Ann(F("id", "id", 1, "string", "one"), "query", TRUE)>>),
+                            Msg("Big", FN(P \o "x", "Big"), <<Ann(F("n", "n", 1, "int64", "one"), "int64", "NUMBER")>>)>>, <<>>),
+                     File(P \o "/svc.proto", Pkg(P), GoPkg(P), TRUE, <<P \o "x/types.proto">>,
+                          <<Svc(P, <<Method("Ping", FN(P \o "x", "Ref"), FN(P, "Out"), TRUE, Parts(TRUE, <<Lit("ping")>>, FALSE), "GET"),
+                                     Method("Pong", FN(P, "In"), FN(P \o "x", "Big"), TRUE, Parts(TRUE, <<Lit("pong")>>, FALSE), "POST"),
+                                     Method("Both", FN(P \o "x", "Big"), FN(P \o "x", "Ref"), FALSE, NoParts, "")>>)>>,
+                          <<In(P), Out(P), Msg("Holder", FN(P, "Holder"), <<FRef("r", "r", 1, "message", "one", FN(P \o "x", "Ref")),
+                                                                           FMap("m", "m", 2, "string", "message", FN(P \o "x", "Big"))>>)>>, <<>>)>>)
        [] sh = "two_service_files" ->   \* one Go package made of two files, each declaring a service
             Schema(<<File(P \o "/svc.proto", Pkg(P), GoPkg(P), TRUE, <<>>, <<Svc(P, <<do(FN(P, "In"), FN(P, "Out"))>>)>>, <<In(P), Out(P)>>, <<>>),
                      File(P \o "/more.proto", Pkg(P), GoPkg(P), TRUE, <<P \o "/svc.proto">>,
@@ -595,12 +612,13 @@ C18Case(P, sh) ==
 (* top-level message.                                                      *)
 (***************************************************************************)
 Constructs == {"kinds", "wkt", "wkt2", "int64num", "enumcustom", "enumnum", "nullable", "empty", "ts", "bytes", "oneof", "oneofflat", "flatten",
-               "flattenprefix", "unwraplist", "unwrapmap", "multiword", "int64rep", "plain"}
+               "flattenprefix", "unwraplist", "unwrapmap", "multiword", "int64rep", "plain", "required"}
 \* the annotated message A (and the helper messages it needs)
 ConstructMsgs(P, c) ==
   LET a(fs) == Msg("A", FN(P, "A"), fs)
       ch == FN(P, "Child") c2 == FN(P, "Child2")
-  IN CASE c = "int64num"   -> <<a(<<Ann(F("n", "n", 1, "int64", "one"), "int64", "NUMBER"), Ann(F("u", "u", 2, "uint64", "one"), "int64", "NUMBER"), F("s", "s", 3, "string", "one")>>)>>
+  IN CASE c = "int64num"   -> <<a(<<Ann(F("n", "n", 1, "int64", "one"), "int64", "NUMBER"), Ann(F("u", "u", 2, "uint64", "one"), "int64", "NUMBER"), F("s", "s", 3, "string", "one"),
+                                     Ann(F("o", "o", 4, "sfixed64", "opt"), "int64", "NUMBER")>>)>>
        [] c = "int64rep"   -> <<a(<<Ann(F("ns", "ns", 1, "int64", "rep"), "int64", "NUMBER"), Ann(FMap("by", "by", 2, "string", "sint64", ""), "int64", "NUMBER")>>)>>
        [] c = "enumcustom" -> <<a(<<FRef("e", "e", 1, "enum", "one", FN(P, "E")), FRef("es", "es", 2, "enum", "rep", FN(P, "E")), F("s", "s", 3, "string", "one")>>)>>
        [] c = "enumnum"    -> <<a(<<Ann(FRef("e", "e", 1, "enum", "one", FN(P, "P")), "enumEnc", "NUMBER"), F("s", "s", 2, "string", "one")>>)>>
@@ -608,14 +626,21 @@ ConstructMsgs(P, c) ==
        [] c = "empty"      -> <<a(<<Ann(FRef("c", "c", 1, "message", "one", ch), "empty", "NULL"), Ann(FRef("d", "d", 2, "message", "one", ch), "empty", "OMIT"),
                                    Ann(FRef("p", "p", 3, "message", "one", ch), "empty", "PRESERVE"), F("s", "s", 4, "string", "one")>>)>>
        [] c = "ts"         -> <<a(<<Ann(FRef("t", "t", 1, "message", "one", TS), "ts", "UNIX_SECONDS"), Ann(FRef("u", "u", 2, "message", "one", TS), "ts", "DATE"),
-                                   Ann(FRef("m", "m", 3, "message", "one", TS), "ts", "UNIX_MILLIS"), FRef("r", "r", 4, "message", "one", TS)>>)>>
-       [] c = "bytes"      -> <<a(<<Ann(F("b", "b", 1, "bytes", "one"), "bytes", "HEX"), Ann(F("c", "c", 2, "bytes", "one"), "bytes", "BASE64URL_RAW"), F("d", "d", 3, "bytes", "one")>>)>>
+                                   Ann(FRef("m", "m", 3, "message", "one", TS), "ts", "UNIX_MILLIS"), FRef("r", "r", 4, "message", "one", TS),
+                                   Ann(FRef("ts", "ts", 5, "message", "rep", TS), "ts", "UNIX_SECONDS"), Ann(FRef("ds", "ds", 6, "message", "rep", TS), "ts", "DATE")>>)>>
+       [] c = "bytes"      -> <<a(<<Ann(F("b", "b", 1, "bytes", "one"), "bytes", "HEX"), Ann(F("c", "c", 2, "bytes", "one"), "bytes", "BASE64URL_RAW"), F("d", "d", 3, "bytes", "one"),
+                                   Ann(F("hs", "hs", 4, "bytes", "rep"), "bytes", "HEX"), Ann(F("us", "us", 5, "bytes", "rep"), "bytes", "BASE64URL")>>)>>
        [] c = "oneof"      -> <<MsgO("A", FN(P, "A"), <<F("k", "k", 1, "string", "one"), InOneof(FRef("a", "a", 2, "message", "one", ch), "o"),
                                      InOneof(Ann(FRef("b", "b", 3, "message", "one", c2), "oneofValue", "bee"), "o")>>, <<Oneof("o", TRUE, "type", FALSE)>>)>>
        [] c = "oneofflat"  -> <<MsgO("A", FN(P, "A"), <<F("k", "k", 1, "string", "one"), InOneof(FRef("a", "a", 2, "message", "one", ch), "o"),
                                      InOneof(FRef("b", "b", 3, "message", "one", c2), "o")>>, <<Oneof("o", TRUE, "type", TRUE)>>)>>
        [] c = "flatten"    -> <<a(<<F("k", "k", 1, "string", "one"), Ann(FRef("c", "c", 2, "message", "one", ch), "flatten", TRUE)>>)>>
        [] c = "flattenprefix" -> <<a(<<F("x", "x", 1, "string", "one"), Ann(Ann(FRef("c", "c", 2, "message", "one", ch), "flatten", TRUE), "prefix", "c_")>>)>>
+       \* (buf.validate.field).required on fields of several shapes, among them a flattened one: what the
+       \* document lists as required must be required of the wire form, not of the proto field
+       [] c = "required"   -> <<a(<<Req(F("k", "k", 1, "string", "one")), Req(Ann(FRef("c", "c", 2, "message", "one", ch), "flatten", TRUE)),
+                                   Req(FRef("d", "d", 3, "message", "one", ch)), Req(F("tags", "tags", 4, "string", "rep")),
+                                   Req(F("n", "n", 5, "int64", "one")), F("free", "free", 6, "string", "one")>>)>>
        [] c = "unwraplist" -> <<a(<<Ann(F("items", "items", 1, "string", "rep"), "unwrap", TRUE)>>)>>
        [] c = "unwrapmap"  -> <<Msg("L", FN(P, "L"), <<Ann(FRef("items", "items", 1, "message", "rep", ch), "unwrap", TRUE)>>),
                                 a(<<FMap("by_key", "byKey", 1, "string", "message", FN(P, "L")), F("sib_ling", "sibLing", 2, "string", "one")>>)>>
